@@ -303,6 +303,18 @@ func (s *Server) cleanupIdleConnections() {
 	}
 }
 
+// idleCheckInterval is how often idle connections are looked for: half the
+// idle timeout, but never less than a millisecond - time.NewTicker and
+// Ticker.Reset panic on a non-positive interval, which IdleTimeout/2 is for
+// an IdleTimeout of one nanosecond.
+func idleCheckInterval(idleTimeout time.Duration) time.Duration {
+	interval := idleTimeout / 2
+	if interval < time.Millisecond {
+		interval = time.Millisecond
+	}
+	return interval
+}
+
 // idleConnectionCleanupLoop periodically checks for and closes idle connections
 func (s *Server) idleConnectionCleanupLoop() {
 	// Default check interval is 1 minute or IdleTimeout/2, whichever is shorter
@@ -312,7 +324,7 @@ func (s *Server) idleConnectionCleanupLoop() {
 		tuning := s.handler.tuning.Load()
 		if tuning.IdleTimeout > 0 {
 			// Use half the idle timeout as a reasonable check interval
-			halfTimeout := tuning.IdleTimeout / 2
+			halfTimeout := idleCheckInterval(tuning.IdleTimeout)
 			if halfTimeout < checkInterval {
 				checkInterval = halfTimeout
 			}
@@ -332,7 +344,7 @@ func (s *Server) idleConnectionCleanupLoop() {
 			if s.handler != nil {
 				tuning := s.handler.tuning.Load()
 				if tuning.IdleTimeout > 0 {
-					newInterval := tuning.IdleTimeout / 2
+					newInterval := idleCheckInterval(tuning.IdleTimeout)
 					if newInterval < 1*time.Minute {
 						// Update ticker if interval changed
 						if newInterval != checkInterval {
